@@ -51,7 +51,13 @@ func (s *SimSignParty) Update(msg model.ConsensusMessage) { s.p.Update(msg) }
 // advance loop baseParty.Update runs afterwards (round1.Start replays stored messages).
 func (s *SimSignParty) AcceptProposal() {
 	s.p.lock()
-	defer s.p.unlock()
+	// the advance loop runs inside baseParty.Update, whose deferred function swallows panics: same here
+	defer func() {
+		s.p.unlock()
+		if r := recover(); r != nil {
+			common.DefaultLogger.Errorf("recover error: %v", r)
+		}
+	}()
 	s.r0.canProcessed = true
 	for s.p.round() != nil && s.p.round().CanProceed() {
 		if s.p.advance(); s.p.round() != nil {
